@@ -4,7 +4,7 @@ import ast
 
 from .. import bits as B_
 from .. import interval as I_
-from ..astutil import aug_form, dotted, effective, method_call
+from ..astutil import norm_nc, aug_form, dotted, effective, method_call
 from ..cfg import canon_test, cfg_of, fact_key, norm, walk_own
 from ..consteval import Scope, fold_in
 from ..mutate import B, M
@@ -72,7 +72,90 @@ def check(ctx):
     sb = B_.evaluate(first['s'], sc, {x: 'h'}, {'h': width})
     eb = B_.evaluate(first['e'], sc, {x: 'h'}, {'h': width})
     fb = B_.evaluate(first['f'], sc, {x: 'h'}, {'h': width})
-    raising = [r_.lineno for r_ in walk_own(f.node) if isinstance(r_, (ast.Raise, ast.Assert))]
+    # places that can reject an input.  Not counted: an assertion / guarded raise that the masked fields already satisfy (each field is
+    # bounded by its mask, by the bit domain), and a range guard on the very word that struct.pack('I', word) would reject anyway.
+    gf16 = cfg_of(f)
+    widths = {}
+    for nm_, bv in (('s', sb), ('e', eb), ('f', fb)):
+        hi = max([i for i, b in enumerate(bv) if b != 0] or [-1])
+        widths[nm_] = (1 << (hi + 1)) - 1
+    packed = {norm(c.args[1]) for c in walk_own(f.node) if isinstance(c, ast.Call) and dotted(c.func) == 'struct.pack' and len(c.args) == 2 and fold_in(f, c.args[0]) in ('I', '<I', '=I', '>I')}
+
+    def bound(e_, node_):
+        """(lo, hi) of a field name at a node where only its masked extraction reaches, or of an int constant"""
+        v = fold_in(f, e_)
+        if isinstance(v, int) and not isinstance(v, bool):
+            return v, v
+        if isinstance(e_, ast.Name) and e_.id in widths:
+            ds = gf16.reaching_defs(node_, e_.id)
+            if len(ds) == 1 and ds[0].ast is not None and isinstance(ds[0].ast, ast.Assign) and ds[0].ast.value is first[e_.id]:
+                return 0, widths[e_.id]
+        return None
+
+    def holds(t_, node_):
+        """True / False when the bit domain decides the test, None otherwise"""
+        if isinstance(t_, ast.BoolOp):
+            vs = [holds(v, node_) for v in t_.values]
+            if isinstance(t_.op, ast.And):
+                return False if False in vs else (None if None in vs else True)
+            return True if True in vs else (None if None in vs else False)
+        if isinstance(t_, ast.UnaryOp) and isinstance(t_.op, ast.Not):
+            v = holds(t_.operand, node_)
+            return None if v is None else not v
+        if isinstance(t_, ast.Call) and isinstance(t_.func, ast.Name) and t_.func.id == 'isinstance' and len(t_.args) == 2 and norm(t_.args[1]) == 'int':
+            a0 = t_.args[0]
+            if isinstance(a0, ast.Name) and (bound(a0, node_) is not None or any(isinstance(d.ast, ast.Assign) and isinstance(gf16.def_value(d, a0.id), ast.Call) and
+                                                                                norm(gf16.def_value(d, a0.id).func) == 'int' for d in gf16.reaching_defs(node_, a0.id))):
+                return True
+            return None
+        if isinstance(t_, ast.Compare):
+            terms = [t_.left] + list(t_.comparators)
+            res = True
+            for a_, op, b_ in zip(terms, t_.ops, terms[1:]):
+                if isinstance(op, (ast.In, ast.NotIn)) and isinstance(b_, (ast.Tuple, ast.List, ast.Set)):
+                    ba = bound(a_, node_)
+                    vals = [fold_in(f, x) for x in b_.elts]
+                    inside = ba is not None and all(isinstance(v, int) for v in vals) and set(range(ba[0], ba[1] + 1)) <= set(vals) if ba and ba[1] - ba[0] < 64 else None
+                    r = inside if isinstance(op, ast.In) else (None if inside is None else not inside)
+                    r = True if r else None
+                else:
+                    ba, bb = bound(a_, node_), bound(b_, node_)
+                    if ba is None or bb is None:
+                        # the word handed to struct.pack('I', ..): pack itself rejects anything outside 0 .. 0xffffffff
+                        if isinstance(op, ast.LtE) and ((norm(b_) in packed and bound(a_, node_) == (0, 0)) or (norm(a_) in packed and bound(b_, node_) == (0xffffffff, 0xffffffff))):
+                            r = True
+                        else:
+                            r = None
+                    elif isinstance(op, ast.LtE):
+                        r = True if ba[1] <= bb[0] else (False if ba[0] > bb[1] else None)
+                    elif isinstance(op, ast.Lt):
+                        r = True if ba[1] < bb[0] else (False if ba[0] >= bb[1] else None)
+                    elif isinstance(op, ast.GtE):
+                        r = True if ba[0] >= bb[1] else (False if ba[1] < bb[0] else None)
+                    elif isinstance(op, ast.Gt):
+                        r = True if ba[0] > bb[1] else (False if ba[1] <= bb[0] else None)
+                    else:
+                        r = None
+                if r is None:
+                    return None
+                res = res and r
+            return res
+        return None
+    raising = []
+    for n_ in gf16.nodes:
+        if n_.kind == 'stmt' and isinstance(n_.ast, ast.Assert):
+            if holds(n_.ast.test, n_) is not True:
+                raising.append(n_.line)
+        elif n_.kind == 'raise':
+            # reachable only through branch edges the bit domain cannot refute
+            feasible = True
+            for e_ in gf16.dominating_edges(n_):
+                if e_.label and e_.label[0] == 'cond':
+                    v = holds(e_.label[1], e_.src)
+                    if v is not None and v != e_.label[2]:
+                        feasible = False
+            if feasible:
+                raising.append(n_.line)
     ctx.inst('R1', f, 'total-on-signed-patterns', not (signed_callers and raising),
              'the decoder is handed signed shorts (%s): it must decode every 16-bit pattern, also when it arrives as a negative int, and may not reject it (raise at %s)'
              % (signed_callers[:1], raising))
@@ -269,7 +352,7 @@ def trajectory_rules(ctx, rule='R4'):
     pe = m.func(TRJ, 'CompressedSegment._pack_element')
     pks = [c for c in walk_own(pe.node) if isinstance(c, ast.Call) and dotted(c.func) == 'struct.pack']
     lp = [l for l in walk_own(pe.node) if isinstance(l, ast.For)]
-    ctx.inst(rule, pe, 'element-int16', len(pks) == 1 and len(lp) == 1 and [norm(a) for a in pks[0].args] == ["'<h'", norm(lp[0].target)] and norm(lp[0].iter) == pe.params[-1],
+    ctx.inst(rule, pe, 'element-int16', len(pks) == 1 and len(lp) == 1 and [norm_nc(a) for a in pks[0].args] == ["'<h'", norm(lp[0].target)] and norm(lp[0].iter) == pe.params[-1],
              'each part is packed <h in order, unmasked')
     et = m.func(TRJ, 'CompressedSegment._encode_type')
     g = cfg_of(et)
@@ -390,7 +473,9 @@ def quaternion_rules(ctx, rule='R3'):
     if len(sel) == 1:
         iv_ = norm(sel[0].target)
         tests = [i for i in walk_own(sel[0]) if isinstance(i, ast.If)]
-        oks = len(tests) == 1 and norm(tests[0].test) in ('abs(quat_n[%s]) > abs(quat_n[i_largest])' % iv_, 'abs(quat_n[i_largest]) < abs(quat_n[%s])' % iv_) and \
+        upd = [n for n in gq.nodes if n.kind == 'stmt' and isinstance(n.ast, ast.Assign) and norm(n.ast.targets[0]) == 'i_largest' and any(x is n.ast for x in walk_own(sel[0]))]
+        # the index moves exactly under `abs(q[i]) > abs(q[i_largest])` (however the comparison is spelled or named)
+        oks = len(tests) == 1 and len(upd) == 1 and norm(upd[0].ast.value) == iv_ and fact_key('abs(quat_n[%s]) > abs(quat_n[i_largest])' % iv_, True) in gq.fact_keys_at(upd[0]) and \
             fold_in(cq, sel[0].iter) in ((1, 2, 3), (0, 1, 2, 3))
     else:
         am = [s_ for s_ in cq.node.body if isinstance(s_, ast.Assign) and norm(s_.targets[0]) == 'i_largest']
